@@ -165,13 +165,13 @@ def step (s : Sys) : Op → Sys × List Obs
       ({ (s.setKernel h ((s.kernel h).close fd)) with listeners := eraseKey s.listeners lslot }, [.ok])
   | .connect h cslot sslot peer =>
     let (k1, fd) := (s.kernel h).openSock peer.ip.isV6 false
-    let (k2, r) := k1.pollConnect fd peer
+    let (k2, r) := k1.pollConnect s.cfg fd peer
     settleConnect s cslot { host := h, fd := fd, sslot := sslot, peer := peer } k2 r
   | .cpoll cslot _ =>
     match s.connecting.lookup cslot with
     | none => (s, [.badop])
     | some c =>
-      let (k1, r) := (s.kernel c.host).pollConnect c.fd c.peer
+      let (k1, r) := (s.kernel c.host).pollConnect s.cfg c.fd c.peer
       settleConnect s cslot c k1 r
   | .ccancel cslot =>
     match s.connecting.lookup cslot with
